@@ -68,12 +68,12 @@ class Scratch:
         open(p, 'w').write(s2)
         return n
 
-    def inject(self, relfile, harness_file, modname='verif_kani'):
+    def inject(self, relfile, harness_file, modname='verif_kani', vis=''):
         p = os.path.join(self.path, relfile)
         if not os.path.exists(p):
             raise Undecided('anchor lost: %s does not exist' % relfile)
         with open(p, 'a') as f:
-            f.write('\n#[cfg(kani)] #[path = "%s"] mod %s;\n' % (harness_file, modname))
+            f.write('\n#[cfg(kani)] #[path = "%s"] %smod %s;\n' % (harness_file, vis + ' ' if vis else '', modname))
 
 
 def _clean_desc(d):
